@@ -5,7 +5,7 @@ from .. import bootstrap  # noqa: F401
 from .. import inject
 
 import usim
-from usim import Lock, time, instant
+from usim import Lock, time, instant, until
 
 PROPERTY = 'C09'
 LEVEL = 'fault_enumeration'
@@ -21,7 +21,7 @@ RULE = (
     'the shadow state, and at quiescence (lost lock). non-trivial = injected signal landed, or '
     'the un-injected reference; distinct = activation trace'
 )
-RULE = RULE + (' Further: locks that served earlier simulations, clocks that absorb every delay or start below zero.')
+RULE = RULE + (' Further: contenders with a time-out around their attempt that ask again at once, locks that served earlier simulations, clocks that absorb every delay or start below zero.')
 
 LEVEL_TEXT = (
     'Fault enumeration by runtime monitoring: the real Lock is driven by generated contenders '
@@ -56,7 +56,12 @@ def make_case(seed, index, tier):
                            # activity itself goes on holding the outer level
                            'via_generator': rng.random() < 0.3,
                            # the block is left by an exception that the contender handles itself
-                           'leave_by': rng.choice([None, None, None, None, 'err', 'exit', 'kbd'])})
+                           'leave_by': rng.choice([None, None, None, None, 'err', 'exit', 'kbd']),
+                           # a time-out around the whole attempt (waiting and holding); when it
+                           # strikes the contender asks again at once - in the activation in
+                           # which it gave up, possibly the one in which it was handed the lock
+                           'patience': rng.choice([None, None, None, 0.5, 1, 1.5, 2]),
+                           'retries': rng.randint(1, 3)})
         contenders.append({'name': 'p%d' % number, 'rounds': rounds})
     # the locks may have served an earlier simulation (e.g. module-level locks)
     return {'seed': seed, 'index': index, 'tier': tier, 'scenario': contenders,
@@ -254,13 +259,31 @@ def build_for(case):
                 for round_ in spec['rounds']:
                     if round_['offset']:
                         await (time + round_['offset'])
-                    try:
-                        await acquire(round_['lock'], round_['depth'], round_['hold'],
-                                      round_['inner_wait'], round_.get('via_generator', False),
-                                      round_.get('leave_by'))
-                    except (Leave, LeaveExit, LeaveKbd):
-                        checker.stats['left_by_exception'] = checker.stats.get(
-                            'left_by_exception', 0) + 1
+                    retries = round_.get('retries', 0) if round_.get('patience') else 0
+                    while True:
+                        try:
+                            if retries > 0:
+                                retries -= 1
+                                completed = False
+                                async with until(time + round_['patience']):
+                                    await acquire(round_['lock'], round_['depth'], round_['hold'],
+                                                  round_['inner_wait'],
+                                                  round_.get('via_generator', False),
+                                                  round_.get('leave_by'))
+                                    completed = True
+                                if not completed:
+                                    checker.stats['timed_out_and_asked_again'] = checker.stats.get(
+                                        'timed_out_and_asked_again', 0) + 1
+                                    continue
+                            else:
+                                await acquire(round_['lock'], round_['depth'], round_['hold'],
+                                              round_['inner_wait'],
+                                              round_.get('via_generator', False),
+                                              round_.get('leave_by'))
+                        except (Leave, LeaveExit, LeaveKbd):
+                            checker.stats['left_by_exception'] = checker.stats.get(
+                                'left_by_exception', 0) + 1
+                        break
             return run
         participants = [(spec['name'], contender(spec)) for spec in case['scenario']]
         return participants, (), checker
